@@ -169,6 +169,26 @@ func (e *Exec) builtin(st *State, fr *Frame, x *ssa.Call, b builtinV, args []Val
 				st.heap[v.Obj] = MapObj{}
 			}
 			return one(st, fr)
+		case SliceV:
+			if v.Base.IsNil() || (v.Len.konst && v.Len.cv == 0) {
+				return one(st, fr)
+			}
+			switch c := e.load(st, v.Base).(type) {
+			case ArrayV:
+				if !v.Len.konst || !v.Off.konst {
+					panic(unsupported("clear of non-byte slice with symbolic bounds"))
+				}
+				el := append([]Value(nil), c.E...)
+				z := e.zero(b.c.Args[0].Type().Underlying().(*types.Slice).Elem())
+				for i := 0; i < int(v.Len.cv); i++ {
+					el[int(v.Off.cv)+i] = z
+				}
+				e.store(st, v.Base, ArrayV{el})
+			default:
+				zeros := SliceV{Base: Ptr{Obj: e.alloc(st, ByteBuf{C: czero, Len: v.Len})}, Off: tc.Int(0), Len: v.Len, Cap: v.Len}
+				e.copyInto(st, v, zeros)
+			}
+			return one(st, fr)
 		}
 	case "SliceData":
 		sl := args[0].(SliceV)
